@@ -83,6 +83,18 @@ pub fn carry_words(w: usize) -> Vec<u64> {
     v.dedup();
     v
 }
+
+/// Numbers of leading all-zero source blocks to try: every count up to 12 and around every power of
+/// two up to `max` (any bound on redraws).
+pub fn zero_block_counts(max: usize) -> Vec<usize> {
+    let mut v: Vec<usize> = (0..=12).collect();
+    let mut p = 16usize;
+    while p <= max {
+        v.extend([p - 1, p, p + 1]);
+        p *= 2;
+    }
+    v
+}
 /// u64 arguments for seed_from_u64
 pub fn u64_alphabet() -> Vec<u64> {
     const PHI: u64 = 0x9e3779b97f4a7c15;
@@ -97,6 +109,13 @@ pub fn u64_alphabet() -> Vec<u64> {
         v.push(x);
         v.push(x.wrapping_add(1));
         v.push(x.wrapping_sub(1));
+    }
+    // arguments whose j-th SplitMix64 expansion word is special: zero, a zero half, all ones, a
+    // single bit, the documented replacement constants (constructed by inverting the finaliser)
+    for j in 1..=8u64 {
+        for y in [0u64, 0x0000_0000_9E37_79B9, 0xDEAD_BEEF_0000_0000, 0x0000_0000_0000_0001, 0x8000_0000_0000_0000, u64::MAX, 0x0000_0000_FFFF_FFFF, 0xFFFF_FFFF_0000_0000, 0x0BAD_5EED_0BAD_5EED] {
+            v.push(refmodels::seeding::splitmix_argument_for(j, y));
+        }
     }
     v.sort();
     v.dedup();
